@@ -42,12 +42,13 @@ def attributes_of(ecls):
 
 
 def children_of(ecls):
-    """{prop_name: _BaseChildElement / ZeroOrOneChoice descriptor} declared on `ecls` (incl. inherited)."""
+    """Unique child-element descriptors (_BaseChildElement incl. Choice, and ZeroOrOneChoice) reachable from the
+    generated properties/methods of element class `ecls` (incl. inherited), in a stable order."""
     from pptx.oxml.xmlchemy import ZeroOrOneChoice, _BaseChildElement
 
-    out = {}
+    seen, out = set(), []
     for k in reversed(ecls.__mro__):
-        for name, v in vars(k).items():
+        for name, v in sorted(vars(k).items()):
             fns = []
             if isinstance(v, property) and v.fget is not None:
                 fns.append(v.fget)
@@ -55,10 +56,9 @@ def children_of(ecls):
                 fns.append(v)
             for fn in fns:
                 for o in _closure_objs(fn):
-                    if isinstance(o, (_BaseChildElement, ZeroOrOneChoice)):
-                        pn = getattr(o, "_prop_name", None)
-                        if pn is not None:
-                            out[pn] = o
+                    if isinstance(o, (_BaseChildElement, ZeroOrOneChoice)) and id(o) not in seen:
+                        seen.add(id(o))
+                        out.append(o)
     return out
 
 
